@@ -309,3 +309,33 @@ def c08_tree(e):
         if rw(line.rstrip()) - len(label) != 4 * depth[i]:
             return False
     return True
+
+
+# --- Rule with a symbolic width (S, CrossHair): the whole width range at once ----------------------------------------------
+from vf.obl import xh  # noqa: E402
+
+
+def _mk_rule_sym(chars, title, tiers, timeout):
+    def pre(width: int) -> bool:
+        return (5 if title else 2) <= width <= 200
+
+    @xh("C08-rule-symbolic-width-%s%s" % ("wide" if chars != "-" else "dash", "-title" if title else ""), pre=pre, tiers=tiers,
+        timeout=timeout, kind="S", functions=["rich/rule.py:Rule.__rich_console__", "rich/text.py:Text.truncate", "rich/cells.py:set_cell_size"],
+        stubs=["S1", "S2", "S4"],
+        bounds="Rule(characters=%r, title=%r) rendered with the available width a symbolic integer in %d..200: the single line "
+               "produced is exactly that many cells wide" % (chars, title, 5 if title else 2))
+    def h(width: int) -> bool:
+        c = cat.console()
+        lines = cat.render_lines(c, Rule(title, characters=chars), width)
+        if len(lines) != 1:
+            return False
+        total = 0
+        for ch in lines[0]:
+            total += 2 if ch == "中" else 1
+        return total == width
+    return h
+
+
+_mk_rule_sym("-", "", ("quick", "thorough"), 600)
+_mk_rule_sym("中", "", ("thorough",), 1500)
+_mk_rule_sym("-", "t", ("thorough",), 1500)
